@@ -292,6 +292,12 @@ class Esc:
                 if isinstance(l, ast.Call) and isinstance(l.func, ast.Attribute) and l.func.attr == 'get' and l.args \
                         and not (isinstance(test.comparators[0], ast.Constant) and test.comparators[0].value is None):
                     out.add('in:' + ast.unparse(l.func.value) + ':' + ast.unparse(l.args[0]))
+            if isinstance(test, ast.Compare) and len(test.ops) == 1 and isinstance(test.ops[0], ast.IsNot) and not truth:
+                # the guard-clause form: `if trie.get(k) is not node: return` - past it, k is present
+                l = test.left
+                if isinstance(l, ast.Call) and isinstance(l.func, ast.Attribute) and l.func.attr == 'get' and l.args \
+                        and not (isinstance(test.comparators[0], ast.Constant) and test.comparators[0].value is None):
+                    out.add('in:' + ast.unparse(l.func.value) + ':' + ast.unparse(l.args[0]))
             if isinstance(test, ast.Compare) and len(test.ops) == 1 and isinstance(test.ops[0], ast.In) and truth:
                 out.add('in:' + ast.unparse(test.comparators[0]) + ':' + ast.unparse(test.left))
             if isinstance(test, ast.Compare) and len(test.ops) == 1 and isinstance(test.ops[0], ast.NotIn) and not truth:
